@@ -117,7 +117,7 @@ Definition run_hctor (p : profile) (id : N) (place : N) (args : list arg) : list
          let k := nth_hkind id in
          let m := {| m_base := 0; m_bytes := img |} in
          let t := {| t_off := 0; t_meta := match k with HkInfoReq => Some ((le (slice img 4 4) - 8) / 4) | _ => None end |} in
-         (line "as_bytes" (sRes (fun b => sN (len b)) (as_bytes (place mod sd_align (hkind_struct k)) img)) :: hlines_kind k m t)%list
+         (line "as_bytes" (sRes (fun b => sN (len b)) (as_bytes (align_up place (sd_align (hkind_struct k))) img)) :: hlines_kind k m t)%list
      | _ => []
      end.
 
